@@ -134,6 +134,7 @@ class World:
         self.next_hid = 0
         self.rlog = []             # harness-side future log: ["resolve", tick, time, f, v] / ["wait", tick, time, pid, fexpr]
         self.hid_owner = {}        # hook list id -> creation seq of the owning event
+        self.hid_count = {}        # hook list id -> number of hooks registered
         self.pid_event = {}        # pid -> creation seq of the event whose handler started it
         self.ctx_daemon = {}       # id(event.context) -> daemon flag of the event that owns the context
         self.created = []          # harness-side record of every Event it created: [seq, created_at_clock, time, daemon, target]
@@ -193,6 +194,7 @@ def build_world(script):
         w.ctx_daemon[id(ev.context)] = bool(e["daemon"])
         if hooks:
             w.hid_owner[hid] = len(w.created)
+            w.hid_count[hid] = len(hooks)
         w.keep.append(ev)
         w.created.append([len(w.created), now_ns if not prerun[0] else None, now_ns + e["dt"], e["daemon"], e["target"]])
         return ev
@@ -354,7 +356,7 @@ def run_script(script, mode="plain", control_script=None):
             event_mod.disable_event_tracing()
     cancelled_ever = [w.seq_of[id(ev)] for ev in w.keep if ev._cancelled]
     return dict(status=status, pops=pops, ulog=w.ulog, created=w.created, cancelled_ever=cancelled_ever, rlog=w.rlog,
-                hid_owner={str(k): v for k, v in w.hid_owner.items()}, pid_event={str(k): v for k, v in w.pid_event.items()}, clock=sim._clock.now.nanoseconds,
+                hid_owner={str(k): v for k, v in w.hid_owner.items()}, hid_count={str(k): v for k, v in w.hid_count.items()}, pid_event={str(k): v for k, v in w.pid_event.items()}, clock=sim._clock.now.nanoseconds,
                 processed=sim._events_processed, ncancelled=sim._events_cancelled,
                 heap=sim._event_heap.size(), primary=sim._event_heap._primary_event_count)
 
@@ -510,7 +512,8 @@ def run_session(script, cmds, hooks=True):
     ctl = sim.control
     hook_log = []
     if hooks:
-        ctl.on_event(lambda e: hook_log.append(["event", e.time.nanoseconds, e._sort_index]))
+        ctl.on_event(lambda e: hook_log.append(["event", e.time.nanoseconds, e._sort_index, int(e.event_type[1:]),
+                                                 sim._events_processed, [x.count for x in w.entities]]))
         ctl.on_time_advance(lambda t: hook_log.append(["time", t.nanoseconds]))
     started, failed, snaps, done_cmds = False, False, [], []
     for cmd in cmds:
